@@ -402,7 +402,7 @@ impl QosPolicies {
     //
     // See Ord implementation on Liveliness.
     if let (Some(off), Some(req)) = (self.liveliness, other.liveliness) {
-      if off < req {
+      if off.kind_num() < req.kind_num() || off.duration() > req.duration() {
         return Some(QosPolicyId::Liveliness);
       }
     }
@@ -783,7 +783,7 @@ pub mod policy {
   }
 
   impl Liveliness {
-    fn kind_num(&self) -> i32 {
+    pub(crate) fn kind_num(&self) -> i32 {
       match self {
         Self::Automatic { .. } => 0,
         Self::ManualByParticipant { .. } => 1,
